@@ -323,6 +323,65 @@ fn opt_rr_shape() {
     }
 }
 
+// ================================================================ R1: the std facts behind the byte-order helpers of the Verus prelude
+// (vx.rs: be_u16 / be_u32 / be_i32 / be_u128 / arr / vx_to_be_bytes / le_* are `external_body` there; these loop-free
+// harnesses prove the same statements about std: big-endian value of a slice, Err exactly when the length differs)
+fn nat_be(b: &[u8]) -> u128 { let mut v: u128 = 0; let mut i = 0; while i < b.len() { v = v * 256 + b[i] as u128; i += 1; } v }
+
+#[kani::proof]
+#[kani::unwind(6)]
+fn r1_from_be_bytes_small() {
+    use std::convert::TryInto;
+    let a: [u8; 5] = kani::any();
+    let n: usize = kani::any();
+    kani::assume(n <= 5);
+    let s = &a[..n];
+    let r2: Result<[u8; 2], _> = s.try_into();
+    assert!(r2.is_ok() == (n == 2));
+    if let Ok(x) = r2 { assert!(u16::from_be_bytes(x) as u128 == nat_be(s)); assert!(u16::from_be_bytes(x) == be(s[0], s[1]));
+                        assert!(u16::from_le_bytes(x) as u128 == nat_be(&[s[1], s[0]])); }
+    let r4: Result<[u8; 4], _> = s.try_into();
+    assert!(r4.is_ok() == (n == 4));
+    if let Ok(x) = r4 { assert!(u32::from_be_bytes(x) as u128 == nat_be(s)); assert!(i32::from_be_bytes(x) as u32 as u128 == nat_be(s));
+                        assert!(u32::from_le_bytes(x) as u128 == nat_be(&[s[3], s[2], s[1], s[0]])); }
+    let r1: Result<[u8; 1], _> = s.try_into();
+    assert!(r1.is_ok() == (n == 1));
+    if let Ok(x) = r1 { assert!(u8::from_be_bytes(x) == s[0]); }
+}
+
+#[kani::proof]
+#[kani::unwind(18)]
+fn r1_from_be_bytes_wide() {
+    use std::convert::TryInto;
+    let a: [u8; 17] = kani::any();
+    let n: usize = kani::any();
+    kani::assume(n <= 17);
+    let s = &a[..n];
+    let r16: Result<[u8; 16], _> = s.try_into();
+    assert!(r16.is_ok() == (n == 16));
+    if let Ok(x) = r16 { assert!(u128::from_be_bytes(x) == nat_be(s)); let mut rev = x; rev.reverse(); assert!(u128::from_le_bytes(x) == nat_be(&rev)); }
+    let r8: Result<[u8; 8], _> = s.try_into();
+    assert!(r8.is_ok() == (n == 8));
+    if let Ok(x) = r8 { assert!(u64::from_be_bytes(x) as u128 == nat_be(s)); }
+}
+
+#[kani::proof]
+#[kani::unwind(18)]
+fn r1_to_be_bytes() {
+    let a: u16 = kani::any(); let b: u32 = kani::any(); let c: i32 = kani::any(); let d: u64 = kani::any(); let e: u128 = kani::any(); let f: u8 = kani::any();
+    assert!(f.to_be_bytes() == [f]);
+    assert!(nat_be(&a.to_be_bytes()) == a as u128 && a.to_be_bytes() == [(a >> 8) as u8, a as u8]);
+    assert!(nat_be(&b.to_be_bytes()) == b as u128);
+    assert!(nat_be(&c.to_be_bytes()) == c as u32 as u128);
+    assert!(nat_be(&d.to_be_bytes()) == d as u128);
+    assert!(nat_be(&e.to_be_bytes()) == e);
+    let mut la = a.to_le_bytes(); la.reverse(); assert!(la == a.to_be_bytes());
+    let mut lb = b.to_le_bytes(); lb.reverse(); assert!(lb == b.to_be_bytes());
+    let mut lc = c.to_le_bytes(); lc.reverse(); assert!(lc == c.to_be_bytes());
+    let mut ld = d.to_le_bytes(); ld.reverse(); assert!(ld == d.to_be_bytes());
+    let mut le = e.to_le_bytes(); le.reverse(); assert!(le == e.to_be_bytes());
+}
+
 // ================================================================ C17: textual name API  (BOUNDED harnesses, bounds stated per harness)
 fn alnum(c: u8) -> bool { (48..=57).contains(&c) || (65..=90).contains(&c) || (97..=122).contains(&c) }
 
